@@ -636,3 +636,55 @@ Section Bounds.
   Lemma legal_run_trivial {S} (step : S -> rin M -> S * fout M) is : forall s, legal_run step (fun _ _ => True) s is.
   Proof. induction is; cbn; auto. Qed.
 End Bounds.
+
+(* ================================================================= the stream acceptor is sound *)
+Section Stream.
+  Open Scope Z_scope.
+  Lemma stream_step_sound cap q c q' : b_rst c = false -> stream_step cap q c = Some q' ->
+    q ++ (if b_enq_fire c then [b_msg c] else []) = (if b_deq_fire c then [b_out c] else []) ++ q' /\ (length q' <= cap)%nat.
+  Proof.
+    intros Hr. unfold stream_step. rewrite Hr.
+    destruct (b_enq_fire c), (b_deq_fire c); cbn [app].
+    - destruct (q ++ [b_msg c]) as [|m t] eqn:E; [discriminate|].
+      destruct (b_out c =? m) eqn:Em; cbn [andb]; [|discriminate].
+      destruct (length t <=? cap)%nat eqn:El; [|discriminate]. intros H; inversion H; subst.
+      apply Z.eqb_eq in Em. subst. split; [reflexivity|]. apply Nat.leb_le. assumption.
+    - destruct (length (q ++ [b_msg c]) <=? cap)%nat eqn:El; [|discriminate]. intros H; inversion H; subst.
+      split; [reflexivity|]. apply Nat.leb_le. assumption.
+    - rewrite app_nil_r. destruct q as [|m t]; [discriminate|].
+      destruct (b_out c =? m) eqn:Em; cbn [andb]; [|discriminate].
+      destruct (length t <=? cap)%nat eqn:El; [|discriminate]. intros H; inversion H; subst.
+      apply Z.eqb_eq in Em. subst. split; [reflexivity|]. apply Nat.leb_le. assumption.
+    - rewrite app_nil_r. destruct (length q <=? cap)%nat eqn:El; [|discriminate]. intros H; inversion H; subst.
+      split; [reflexivity|]. apply Nat.leb_le. assumption.
+  Qed.
+
+  (* accepted by the acceptor => the delivered stream is the accepted stream minus what is still outstanding:
+     same values, same order, nothing lost, duplicated or invented; never more than cap outstanding *)
+  Theorem stream_run_sound cap h : Forall (fun c => b_rst c = false) h -> forall q q', (length q <= cap)%nat ->
+    stream_run cap q h = Some q' ->
+    q ++ obs_accepted h = obs_delivered h ++ q' /\ (length q' <= cap)%nat.
+  Proof.
+    induction 1 as [|c r Hc Hr IH]; intros q q' Hq; cbn [stream_run].
+    - intros E; inversion E; subst. unfold obs_accepted, obs_delivered. cbn. rewrite app_nil_r. auto.
+    - destruct (stream_step cap q c) as [q1|] eqn:Es; [|discriminate]. intros Hrun.
+      destruct (stream_step_sound cap q c q1 Hc Es) as [H1 H2].
+      destruct (IH q1 q' H2 Hrun) as [H3 H4]. split; [|assumption].
+      unfold obs_accepted, obs_delivered in *. cbn [flat_map].
+      rewrite app_assoc, H1, <- !app_assoc, H3. reflexivity.
+  Qed.
+
+  Corollary stream_drained_sound cap h : Forall (fun c => b_rst c = false) h ->
+    stream_run cap [] h = Some [] -> obs_delivered h = obs_accepted h.
+  Proof.
+    intros Hr E. destruct (stream_run_sound cap h Hr [] [] (Nat.le_0_l cap) E) as [H _].
+    cbn in H. rewrite app_nil_r in H. auto.
+  Qed.
+
+  Lemma stream_first_bad_none cap h : forall q i, stream_first_bad cap q i h = None -> stream_run cap q h = Some [].
+  Proof.
+    induction h as [|c r IH]; intros q i; cbn.
+    - destruct q; [reflexivity|discriminate].
+    - destruct (stream_step cap q c); [apply IH|discriminate].
+  Qed.
+End Stream.
